@@ -479,6 +479,45 @@ def run(ctx):
               how="copy.deepcopy(...)")
     # Study.user_attrs/system_attrs deep copy is R20.2; FrozenStudy snapshots through optuna.get_all_study_summaries use these
 
+    # ------------------------------------------------------------- R20.8 study attribute dicts are replaced, not mutated
+    ctx.rule("R20.8", "a study's user/system attribute dict that a storage getter hands out by reference is never mutated in place: writers "
+             "replace it (copy-on-write), so the reference a reader holds - and copies outside the storage lock - is a snapshot")
+    from sa.util import MUTATING_METHODS, parent_map as _pm
+    n_sites = 0
+    for clsq, getter_owner in ((INMEM, INMEM), (REPLAY, JOURNAL)):
+        wcls, gcls = p.cls(clsq), p.cls(getter_owner)
+        for attr, getter in (("user_attrs", "get_study_user_attrs"), ("system_attrs", "get_study_system_attrs")):
+            gf = gcls.methods.get(getter)
+            ctx.require(gf is not None, f"R20.8: {gcls.name}.{getter} vanished")
+            rets = [n.value for n in own_nodes(gf.node) if isinstance(n, ast.Return) and n.value is not None]
+            by_ref = any(isinstance(r, ast.Attribute) and r.attr == attr for r in rets)  # `return <study>.user_attrs` without a copy
+            inplace = []
+            for m in wcls.methods.values():
+                pm = _pm(m.node)
+                for x in own_nodes(m.node):
+                    if not (isinstance(x, ast.Attribute) and x.attr == attr and isinstance(x.ctx, ast.Load)):
+                        continue
+                    par = pm.get(id(x))
+                    if isinstance(par, ast.Subscript) and par.value is x and isinstance(par.ctx, (ast.Store, ast.Del)):
+                        inplace.append((m, par))
+                    elif isinstance(par, ast.Attribute) and par.value is x and par.attr in MUTATING_METHODS and isinstance(pm.get(id(par)), ast.Call) \
+                            and pm.get(id(par)).func is par:
+                        inplace.append((m, par))
+            # only study-level dicts: the object is reached through self._studies
+            inplace = [(m, nd) for m, nd in inplace if "_studies" in norm(nd) or any(
+                isinstance(a, ast.Assign) and "_studies" in norm(a.value) and any(isinstance(t, ast.Name) and norm(nd).startswith(t.id + ".") for t in a.targets)
+                for a in own_nodes(m.node))]
+            n_sites += 1
+            for m, nd in inplace:
+                ctx.check(not by_ref, "R20.8", m.short, f"in-place:{attr}",
+                          message=f"{wcls.name}.{m.name} mutates a study's {attr} dict in place (`{norm(nd)[:60]}`) while {gcls.name}.{getter} hands that dict out by reference: "
+                                  f"Study.{attr} deep-copies it after the storage lock was released, so a concurrent write raises `dictionary changed size during iteration` "
+                                  f"(or yields a torn snapshot), and a sampler holding the dict sees later writes",
+                          how="the writer builds a new dict and rebinds the attribute, or the getter returns a copy made under the lock", where=where(m, nd))
+            if not inplace or not by_ref:
+                ctx.ok("R20.8", gf.short, f"snapshot:{attr}", how="no in-place mutation of the dict handed out" if by_ref else "getter returns a copy")
+    ctx.floor("R20.8", "study_attr_dicts", n_sites, 4, exact=True)
+
     # ------------------------------------------------------------- R20.5 per-thread cache
     ctx.rule("R20.5", "Study's trial cache is thread-local and reset in ask and tell before use")
     tl = p.cls("optuna.study.study._ThreadLocalStudyAttribute")
